@@ -5,9 +5,9 @@ namespace Td
 def pass (cfg : Cfg) (vend rxm : String → Bool) (p : String) : Bool :=
   !(!cfg.skip.isEmpty && vend p) && !(cfg.skip.any fun d => d.isPrefixOf p) && (!cfg.hasRx || rxm p)
 
-/-- configurations for which the filter is a function of the path: no empty prefix, and the
-    whitelist regexp does not match the empty string -/
-def Sane (cfg : Cfg) : Prop := (∀ d ∈ cfg.skip, d.isEmpty = false) ∧ (cfg.hasRx = true → cfg.rxEmpty = false)
+/-- configurations for which the filter is a function of the path: no empty prefix (any whitelist regexp is fine,
+    also one that matches the empty string: the absent side of an insertion or deletion is not matched) -/
+def Sane (cfg : Cfg) : Prop := ∀ d ∈ cfg.skip, d.isEmpty = false
 
 def Facts (vend rxm : String → Bool) (l : List File) : Prop :=
   ∀ f ∈ l, f.vendor = vend f.path ∧ f.rx = rxm f.path
@@ -42,23 +42,23 @@ theorem mem_diffTree {prev cur : List File} {c : Change} (h : c ∈ diffTree pre
     exact .inr (.inl ⟨g, hg, hc.symm⟩)
 
 theorem any_false_of_sane {cfg : Cfg} (hs : Sane cfg) : (cfg.skip.any fun d => d.isEmpty) = false := by
-  rw [List.any_eq_false]; intro d hd; simp [hs.1 d hd]
+  rw [List.any_eq_false]; intro d hd; simp [hs d hd]
 
 theorem keep_eq_pass (cfg : Cfg) (vend rxm : String → Bool) (hs : Sane cfg) (prev cur : List File)
     (hfp : Facts vend rxm prev) (hfc : Facts vend rxm cur) (c : Change) (hc : c ∈ diffTree prev cur) :
     keep cfg c = pass cfg vend rxm c.name := by
-  have hany1 := any_or_isEmpty cfg.skip hs.1
+  have hany1 := any_or_isEmpty cfg.skip hs
   have hany2 : ∀ q : String → Bool, (cfg.skip.any fun d => q d || d.isEmpty) = cfg.skip.any q := by
     intro q; rw [← hany1 q]; congr 1; funext d; exact Bool.or_comm _ _
   rcases mem_diffTree hc with ⟨f, hf, rfl⟩ | ⟨g, hg, rfl⟩ | ⟨f, hf, g, hg, hfg, rfl⟩
   · obtain ⟨v, r⟩ := hfp f hf
     cases hrx : cfg.hasRx with
     | false => simp [keep, pass, Change.name, sideVendor, sidePrefix, sideRx, v, r, hrx, hany1, hany2]
-    | true => simp [keep, pass, Change.name, sideVendor, sidePrefix, sideRx, v, r, hrx, hs.2 hrx, hany1, hany2]
+    | true => simp [keep, pass, Change.name, sideVendor, sidePrefix, sideRx, v, r, hrx, hany1, hany2]
   · obtain ⟨v, r⟩ := hfc g hg
     cases hrx : cfg.hasRx with
     | false => simp [keep, pass, Change.name, sideVendor, sidePrefix, sideRx, v, r, hrx, hany1, hany2]
-    | true => simp [keep, pass, Change.name, sideVendor, sidePrefix, sideRx, v, r, hrx, hs.2 hrx, hany1, hany2]
+    | true => simp [keep, pass, Change.name, sideVendor, sidePrefix, sideRx, v, r, hrx, hany1, hany2]
   · obtain ⟨v, r⟩ := hfp f hf
     obtain ⟨v', r'⟩ := hfc g hg
     simp [keep, pass, Change.name, sideVendor, sidePrefix, sideRx, v, r, v', r', hfg]
